@@ -201,9 +201,13 @@ unsafe fn level_swap<M: Manager>(
             manager.drop_edge(unsafe { node.set_child(i, child) });
         }
         // `set_child()` changes the node's hash value, so the node can only
-        // be inserted now.
-        // SAFETY: `e` points to an inner node; the caller will update level
-        // numbers accordingly
+        // be inserted now. All nodes at the new upper level need to have
+        // `lower_no_pre` as their level number.
+        // SAFETY: We have exclusive access to the node. All nodes at the new
+        // upper level are labeled `lower_no_pre`, and the caller will update
+        // level numbers accordingly.
+        unsafe { node.set_level(lower_no_pre) };
+        // SAFETY: `e` points to an inner node, for level numbers see above
         unsafe { upper.insert_unchecked(manager.clone_edge(e)) };
 
         for child_node in old_children {
